@@ -1,6 +1,10 @@
 """C12 -- elastic symmetry decomposition is correct and frame-independent."""
 from __future__ import annotations
 
+import contextlib
+import re
+import warnings
+
 import numpy as np
 
 import common
@@ -11,7 +15,8 @@ from common import hx
 FILES = ["gen/Gen_tensors.v", "Model_voigt.v", "Model_decomp.v", "Proofs_tensors_alg.v"] + \
         [f"Proofs_tensors_rot{i}.v" for i in range(9)] + \
         ["Proofs_tensors_rot.v", "Proofs_tensors_maps.v", "Proofs_tensors_proj.v", "Inst_tensors.v",
-         "Proofs_decomp.v", "Proofs_decomp2.v", "Proofs_decomp3.v", "Entry_tensors.v", "Extract_tensors.v"]
+         "Proofs_decomp.v", "Proofs_decomp2.v", "Proofs_decomp3.v", "Model_decomp_series.v", "Proofs_decomp_series.v",
+         "Entry_tensors.v", "Extract_tensors.v"]
 PROP = "Properties/C12.v"
 KEYS = ["bulk_modulus", "shear_modulus", "percent_anisotropy", "percent_hexagonal", "percent_tetragonal",
         "percent_orthorhombic", "percent_monoclinic", "percent_triclinic"]
@@ -75,14 +80,10 @@ def run_impl(D, M):
     return ("OK", np.array(flat)), rec
 
 
-def oracle(T, D, c):
-    """Direct reading of C12 on pydrex.diagnostics.elasticity_components; list of failures."""
+def entry_checks(T, c, a0, a1):
+    """Direct reading of C12 for one tensor: a1 = the 11 numbers reported for c["M"], a0 = those reported
+    for the same tensor in its unrotated frame c["M0"]; list of failures."""
     f = []
-    r0, _ = run_impl(D, c["M0"])
-    r1, _ = run_impl(D, c["M"])
-    if r0[0] == "ERR" or r1[0] == "ERR":
-        return [f"elasticity_components raised: {(r0 if r0[0] == 'ERR' else r1)[1:]}"]
-    a0, a1 = r0[1], r1[1]
     M = c["M"]
     K = M[:3, :3].sum() / 9
     Gm = (M[0, 0] + M[1, 1] + M[2, 2] + 2 * (M[3, 3] + M[4, 4] + M[5, 5]) - 3 * K) / 10
@@ -112,6 +113,15 @@ def oracle(T, D, c):
         if abs(np.sum(a1[3:8] ** 2) - a1[2] ** 2) > 1e-6 * max(1.0, a1[2] ** 2):
             f.append("squared percentages of the symmetry classes do not add up to the squared percent anisotropy")
     return f
+
+
+def oracle(T, D, c):
+    """Direct reading of C12 on pydrex.diagnostics.elasticity_components (one matrix per call); list of failures."""
+    r0, _ = run_impl(D, c["M0"])
+    r1, _ = run_impl(D, c["M"])
+    if r0[0] == "ERR" or r1[0] == "ERR":
+        return [f"elasticity_components raised: {(r0 if r0[0] == 'ERR' else r1)[1:]}"]
+    return entry_checks(T, c, r0[1], r1[1])
 
 
 def encode(c):
@@ -164,6 +174,451 @@ def compare(chk, T, D, cases):
     return bad
 
 
+# --------------------------------------------------------------------------
+# series (batch) calls: elasticity_components takes an N x 6 x 6 series.  Model_decomp_series
+# is the loop over the series; proved: it is the map of the single-matrix function, row k
+# depends on entry k only.  The correspondence below calls the implementation with
+# heterogeneous series and compares every row with (a) the extracted series model on the
+# recorded eigh outputs, (b) the extracted single-matrix model, (c) the implementation
+# called on that matrix alone; plus state between calls / aliasing / input forms / a
+# degenerate stream.
+# --------------------------------------------------------------------------
+FORMS = ("array", "list", "tuple", "fortran", "strided", "readonly", "int", "float32", "lower-garbage", "aliased-list",
+         "broadcast")
+SPECIAL = ("isotropic", "cubic", "hexagonal", "tetragonal")   # degenerate eigenvalues: symmetry axes not unique
+SCALES = (1e-3, 0.5, 2.0, 1e3, 1e6)
+
+
+def special_stiffness(rng, kind):
+    c11, c33 = rng.uniform(150, 350, size=2)
+    c12, c13 = rng.uniform(40, 90, size=2)
+    c44, c66 = rng.uniform(40, 110, size=2)
+    m = np.zeros((6, 6))
+    if kind == "isotropic":
+        Kb, Gs = rng.uniform(60, 200), rng.uniform(30, 100)
+        m[:3, :3] = Kb - 2 * Gs / 3
+        m[[0, 1, 2], [0, 1, 2]] = Kb + 4 * Gs / 3
+        m[[3, 4, 5], [3, 4, 5]] = Gs
+        return m
+    if kind == "cubic":
+        c33, c13, c66 = c11, c12, c44
+    elif kind == "hexagonal":
+        c66 = (c11 - c12) / 2
+    m[0, 0] = m[1, 1] = c11
+    m[2, 2] = c33
+    m[0, 1] = m[1, 0] = c12
+    m[0, 2] = m[2, 0] = m[1, 2] = m[2, 1] = c13
+    m[3, 3] = m[4, 4] = c44
+    m[5, 5] = c66
+    return m
+
+
+def special_case(T, rng, kind):
+    M0 = special_stiffness(rng, kind)
+    R = np.eye(3) if rng.random() < 0.5 else G.haar(rng)
+    return dict(kind=kind, M0=M0, R=R, M=rot6(T, M0, R) if not np.array_equal(R, np.eye(3)) else M0.copy())
+
+
+def own_frame(c, M, kind=None):
+    """entry whose matrix was changed after generation (rounded, scaled ...): it is its own unrotated frame"""
+    return dict(kind=kind or ("general" if c["kind"] in ("olivine", "enstatite", "ortho") else c["kind"]),
+                M0=np.array(M), R=np.eye(3), M=np.array(M))
+
+
+def gen_batch(T, rng, k, prev=None):
+    """one series; the family/form schedule is fixed by k, all contents are drawn from rng"""
+    fam, form = [("hetero", "array"), ("hetero", "list"), ("repeated", "array"), ("singleton", "array"),
+                 ("rotations-of-one", "array"), ("scaled", "array"), ("special-symmetry", "array"), ("hetero", "strided"),
+                 ("hetero", "fortran"), ("hetero", "int"), ("hetero", "float32"), ("hetero", "lower-garbage"),
+                 ("aliased", "aliased-list"), ("degenerate", "array"), ("hetero", "readonly"), ("permuted", "array"),
+                 ("aliased", "broadcast"), ("hetero", "tuple"), ("empty", "array"), ("degenerate", "list")][k % 20]
+    draw = lambda: gen_case(T, rng, int(rng.integers(0, 12)))  # noqa: E731
+    bad = None
+    if fam == "hetero":
+        es = [draw() for _ in range(int(rng.integers(2, 7)))]
+        if len({e["kind"] for e in es}) == 1:       # make sure at least two different materials
+            es[int(rng.integers(0, len(es)))] = gen_case(T, rng, 0 if es[0]["kind"] != "olivine" else 1)
+    elif fam == "permuted":
+        base = prev if prev is not None and len(prev["entries"]) > 1 else dict(entries=[draw() for _ in range(4)])
+        perm = rng.permutation(len(base["entries"]))
+        if np.array_equal(perm, np.arange(len(perm))):
+            perm = perm[::-1]
+        es = [base["entries"][int(i)] for i in perm]
+    elif fam == "repeated":
+        es = [draw() for _ in range(int(rng.integers(2, 5)))]
+        rep = es[int(rng.integers(0, len(es)))]
+        where = int(rng.integers(0, 3))             # repeat as first / last / somewhere
+        es = [rep] + es if where == 0 else (es + [rep] if where == 1 else es[:1] + [rep] + es[1:])
+        if rng.random() < 0.5:
+            es.append(es[0])
+    elif fam == "singleton":
+        es = [draw()]
+    elif fam == "rotations-of-one":
+        c = draw()
+        es = [c] + [dict(kind=c["kind"], M0=c["M0"], R=Rq, M=rot6(T, c["M0"], Rq))
+                    for Rq in (G.haar(rng) for _ in range(int(rng.integers(2, 5))))]
+    elif fam == "scaled":
+        c = draw()
+        sc = [1.0] + [SCALES[int(i)] for i in rng.permutation(len(SCALES))[:int(rng.integers(2, 5))]]
+        es = [dict(kind=c["kind"], M0=c["M0"] * s_, R=c["R"], M=c["M"] * s_) for s_ in sc]
+    elif fam == "special-symmetry":
+        es = [draw() for _ in range(int(rng.integers(1, 4)))]
+        for j_ in range(int(rng.integers(1, 3))):   # isotropic first, then cubic, hexagonal, tetragonal
+            es.insert(int(rng.integers(0, len(es) + 1)), special_case(T, rng, SPECIAL[(k // 20 + j_) % 4]))
+    elif fam == "aliased":
+        c = draw()
+        es = [c] * int(rng.integers(2, 5))
+    elif fam == "empty":
+        es = []
+    else:   # degenerate: one malformed entry among good ones, first / middle / last
+        es = [draw() for _ in range(int(rng.integers(1, 4)))]
+        what = ["zero", "nan", "inf", "nan-entry", "nan-below-diagonal", "negative"][int(rng.integers(0, 6))]
+        Mb = es[0]["M"].copy()
+        if what == "zero":
+            Mb[:] = 0.0
+        elif what == "nan":
+            Mb[:] = np.nan
+        elif what == "inf":
+            Mb[int(rng.integers(0, 6)), int(rng.integers(0, 6))] = np.inf
+        elif what == "nan-entry":
+            i_, j_ = sorted(int(v) for v in rng.integers(0, 6, size=2))
+            Mb[i_, j_] = np.nan                    # on or above the diagonal: used
+        elif what == "nan-below-diagonal":
+            Mb[int(rng.integers(1, 6)), 0] = np.nan  # below the diagonal: upper_tri_to_symmetric ignores it
+        else:
+            Mb = -Mb
+        e = dict(kind="degenerate-" + what, M0=Mb, R=np.eye(3), M=Mb, Min=Mb)
+        if what == "nan-below-diagonal":
+            Ms = np.triu(Mb) + np.triu(Mb, 1).T
+            e = dict(kind="general", M0=Ms, R=np.eye(3), M=Ms, Min=Mb)
+        es.insert([0, len(es) // 2, len(es)][int(rng.integers(0, 3))], e)
+        bad = what
+    # what is passed for each entry (Min); entries are re-based when the values themselves change
+    if form == "int":
+        es = [own_frame(c, np.round(c["M"])) for c in es]
+    elif form == "float32":
+        es = [own_frame(c, c["M"].astype(np.float32).astype(float)) for c in es]
+    elif form == "lower-garbage":
+        es = [dict(c, Min=np.triu(c["M"]) + np.tril(rng.normal(size=(6, 6)) * 100, -1)) for c in es]
+    es = [dict(c, Min=c.get("Min", c["M"])) for c in es]
+    return dict(family=fam, form=form, entries=es, degenerate=bad)
+
+
+def build_input(b):
+    """the object handed to elasticity_components for series b"""
+    mats = [np.array(c["Min"], dtype=float) for c in b["entries"]]
+    form = b["form"]
+    n = len(mats)
+    arr = np.array(mats, dtype=float).reshape(n, 6, 6)
+    if form == "list":
+        return list(mats)
+    if form == "tuple":
+        return tuple(mats)
+    if form == "fortran":
+        return np.asfortranarray(arr)
+    if form == "strided":
+        buf = np.full((2 * n + 1, 6, 6), 1e300)
+        buf[1::2] = arr
+        return buf[1::2]
+    if form == "readonly":
+        arr.setflags(write=False)
+        return arr
+    if form == "int":
+        return arr.astype(np.int64)
+    if form == "float32":
+        return arr.astype(np.float32)
+    if form == "aliased-list":
+        return [mats[0]] * n if n else []
+    if form == "broadcast":
+        return np.broadcast_to(mats[0], (n, 6, 6)) if n else arr
+    return arr
+
+
+def rows_of(out, n):
+    """dictionary returned by elasticity_components -> n x 11 array; shapes are checked"""
+    for k in KEYS:
+        if np.shape(out[k]) != (n,):
+            raise ValueError(f"output {k} has shape {np.shape(out[k])} for a series of {n}")
+    if np.shape(out["hexagonal_axis"]) != (n, 3):
+        raise ValueError(f"output hexagonal_axis has shape {np.shape(out['hexagonal_axis'])} for a series of {n}")
+    return np.concatenate([np.array([out[k] for k in KEYS], dtype=float).T.reshape(n, 8),
+                           np.array(out["hexagonal_axis"], dtype=float).reshape(n, 3)], axis=1)
+
+
+def run_series(D, x, n, record=True):
+    """elasticity_components on a series; returns (("OK", rows, out_dict) | ("ERR", code, msg)), recorded eigh outputs"""
+    rec = []
+    orig = D.la.eigh
+
+    def eigh(a, *args, **kw):
+        w, v = orig(a, *args, **kw)
+        a = np.asarray(a, dtype=float)
+        res = max(np.abs(v.T @ v - np.eye(3)).max(), np.abs(a @ v - v * w).max() / max(1.0, np.abs(a).max()),
+                  max(0.0, float(-np.min(np.diff(w)))))
+        rec.append((np.array(v), res))
+        return w, v
+
+    if record:
+        D.la.eigh = eigh
+    try:
+        out = D.elasticity_components(x)
+        return ("OK", rows_of(out, n), out), rec
+    except Exception as e:  # noqa: BLE001
+        return ("ERR", common.exc_code(e), str(e)), rec
+    finally:
+        D.la.eigh = orig
+
+
+@contextlib.contextmanager
+def quiet():
+    """the degenerate stream (NaN / zero members) makes numpy warn; keep the check's output readable"""
+    with warnings.catch_warnings(), np.errstate(all="ignore"):
+        warnings.simplefilter("ignore")
+        yield
+
+
+def same_bits(a, b):
+    return np.array_equal(np.asarray(a), np.asarray(b), equal_nan=True)
+
+
+def snapshot(x):
+    return [np.array(m, copy=True) for m in x] if isinstance(x, (list, tuple)) else np.array(x, copy=True)
+
+
+def compare_batches(chk, T, D, batches):
+    """correspondence on series calls; returns list of (batch, detail)"""
+    with quiet():
+        return _compare_batches(chk, T, D, batches)
+
+
+def _compare_batches(chk, T, D, batches):
+    bad = []
+    cov = chk.cov
+    fh, oh, sh_, kh, dh = (cov.setdefault(k, {}) for k in ("batch_family_histogram", "batch_form_histogram",
+                                                           "batch_size_histogram", "batch_entry_kind_histogram",
+                                                           "batch_distinct_moduli_histogram"))
+    st = cov.setdefault("batch_checks", {"rows_vs_series_model": 0, "rows_vs_single_model": 0, "rows_vs_single_call": 0,
+                                         "rows_uninitialised": 0, "repeat_call_identical": 0, "input_unchanged": 0,
+                                         "outputs_not_aliased": 0, "raise_semantics": 0, "empty_series": 0})
+
+    def inc(h, k):
+        h[k] = h.get(k, 0) + 1
+
+    runs = []
+    lines, owner = [], []
+    for bi, b in enumerate(batches):
+        es, n = b["entries"], len(b["entries"])
+        inc(fh, b["family"] + ("/" + b["degenerate"] if b["degenerate"] else ""))
+        inc(oh, b["form"])
+        inc(sh_, str(n) if n < 6 else "6+")
+        for c in es:
+            inc(kh, c["kind"])
+        nmod = len({(round(float(c["M"][:3, :3].sum()), 6)) for c in es if np.all(np.isfinite(c["M"]))})
+        inc(dh, str(nmod) if nmod < 3 else "3+")
+        x = build_input(b)
+        before = snapshot(x)
+        r, rec = run_series(D, x, n)
+        # (1) the caller owns the result: wreck the returned arrays, then call the singles and the series again
+        first_rows = None if r[0] == "ERR" else r[1].copy()
+        first_out = None if r[0] == "ERR" else r[2]
+        singles = [run_impl(D, c["Min"] if b["form"] not in ("int", "float32") else
+                            np.asarray(c["Min"]).astype(np.int64 if b["form"] == "int" else np.float32))[0] for c in es]
+        if first_out is not None:
+            arrays = [first_out[k] for k in KEYS] + [first_out["hexagonal_axis"]]
+            for i_, a in enumerate(arrays):
+                for a2 in arrays[i_ + 1:]:
+                    if np.shares_memory(a, a2):
+                        bad.append((b, "two arrays of the returned dictionary share memory"))
+            for a in arrays:
+                if a.size:
+                    a[...] = np.nan
+        r2, _ = run_series(D, x, n, record=False)
+        runs.append((r, rec, singles, r2))
+        # the input is not modified by the call
+        after = snapshot(x)
+        if not all(same_bits(p, q) for p, q in (zip(before, after) if isinstance(before, list) else [(before, after)])):
+            bad.append((b, "the call modified its input series"))
+        st["input_unchanged"] += 1
+        if r[0] == "OK" and len(rec) == 2 * n:
+            fl = [np.concatenate([np.asarray(c["Min"], dtype=float).reshape(-1), rec[2 * i][0].reshape(-1),
+                                  rec[2 * i + 1][0].reshape(-1)]) for i, c in enumerate(es)]
+            lines.append(common.model_line("decomp_series", [], np.concatenate(fl) if fl else []))
+            owner.append((bi, None))
+            for i, v in enumerate(fl):
+                lines.append(common.model_line("decomp", [], v))
+                owner.append((bi, i))
+    mres = common.run_model(lines, group=G.GROUP) if lines else []
+    mser = {bi: m for (bi, i), m in zip(owner, mres) if i is None}
+    msin = {(bi, i): m for (bi, i), m in zip(owner, mres) if i is not None}
+
+    for bi, (b, (r, rec, singles, r2)) in enumerate(zip(batches, runs)):
+        es, n = b["entries"], len(b["entries"])
+        loose = b["form"] == "float32"      # parts of the computation run in binary32: compare K, G, anisotropy at 1e-4
+        tag = f"series[{b['family']}/{b['form']}, n={n}]"
+        m = mser.get(bi)
+        sample = {"family": b["family"], "form": b["form"], "kinds": [c["kind"] for c in es],
+                  "impl_percent_hexagonal": r[1] if r[0] == "ERR" else [float(v) for v in r[1][:, 3]],
+                  "model_percent_hexagonal": None if m is None or m[0] == "ERR" else [float(v) for v in m[1][4::12]]}
+        chk.note_case(("series", b["form"], tuple(np.asarray(c["Min"]).tobytes() for c in es)),
+                      nontrivial=(r[0] == "OK" and n >= 2), sample=sample)
+        if len(cov.setdefault("batch_samples", [])) < 4 and bi % 5 == 0:
+            cov["batch_samples"].append(sample)
+        # ---- raise semantics: the call raises iff some entry raises alone, and then what the first such entry raises
+        first_err = next((s_ for s_ in singles if s_[0] == "ERR"), None)
+        st["raise_semantics"] += 1
+        if (r[0] == "ERR") != (first_err is not None):
+            bad.append((b, f"{tag}: series call {'raised ' + str(r[1:]) if r[0] == 'ERR' else 'returned'} but the entries decomposed "
+                           f"alone {'raise ' + str(first_err[1:]) if first_err else 'do not raise'}"))
+            continue
+        if r[0] == "ERR":
+            if r[1] != first_err[1]:
+                bad.append((b, f"{tag}: series call raised {r[1]} but the first raising entry raises {first_err[1]} alone"))
+            if b["degenerate"] is None:
+                bad.append((b, f"{tag}: implementation raised on a well-formed series: {r[1:]}"))
+            if r2[0] != "ERR" or r2[1] != r[1]:
+                bad.append((b, f"{tag}: the same call repeated behaves differently ({r[1]} then {r2[:2] if r2[0] == 'ERR' else 'returned'})"))
+            continue
+        rows = r[1]
+        if n == 0:
+            st["empty_series"] += 1
+        if m is None:
+            bad.append((b, f"{tag}: implementation made {len(rec)} eigh calls for {n} matrices"))
+            continue
+        for (_, res) in rec:
+            if res > 1e-10 and b["degenerate"] is None:
+                bad.append((b, f"{tag}: eigh oracle hypothesis residual {res:.3e}"))
+        if m[0] == "ERR" or len(m[1]) != 12 * n:
+            bad.append((b, f"{tag}: series model: {m[:2] if m[0] == 'ERR' else len(m[1])}"))
+            continue
+        written = []
+        for i, c in enumerate(es):
+            mrow = m[1][12 * i: 12 * i + 12]
+            flag, mvals = mrow[0], list(mrow[1:])
+            ms1 = msin.get((bi, i))
+            # series model row == single-matrix model (run-time echo of C12_series_entry_is_single)
+            st["rows_vs_single_model"] += 1
+            if (flag == 1.0) != (ms1[0] == "OK") or (flag == 1.0 and not same_bits(mvals, ms1[1])):
+                bad.append((b, f"{tag} entry {i}: extracted series model row differs from the extracted single-matrix model"))
+            sure = 3 if (flag != 1.0 or c["kind"] in SPECIAL or c["kind"].startswith("degenerate")) else 11
+            written.append(sure)
+            if flag != 1.0:
+                st["rows_uninitialised"] += 1
+            # (a) implementation row vs series model
+            st["rows_vs_series_model"] += 1
+            if flag == 1.0:
+                ncmp = 3 if (loose or sure == 3) else 11
+                ref = mvals[:ncmp]
+                okc, j = common.vec_close(list(rows[i][:ncmp]), ref, rtol=1e-4 if loose else 1e-9, atol=1e-4 if loose else 1e-7)
+                if not okc and not (c["kind"].startswith("degenerate") and not np.all(np.isfinite(rows[i][:ncmp]))):
+                    bad.append((b, f"{tag} entry {i} ({c['kind']}) output {j}: implementation {rows[i][j]!r} vs model {ref[j]!r}"))
+            # (c) implementation row vs the same matrix decomposed alone (same code, same input: same bits)
+            s1 = singles[i]
+            st["rows_vs_single_call"] += 1
+            if not same_bits(rows[i][:sure], s1[1][:sure]):
+                j = int(np.argmax([not same_bits(p, q) for p, q in zip(rows[i][:sure], s1[1][:sure])]))
+                name = (KEYS + ["hexagonal_axis[0]", "hexagonal_axis[1]", "hexagonal_axis[2]"])[j]
+                bad.append((b, f"{tag} entry {i} ({c['kind']}): {name} = {rows[i][j]!r} in the series but {s1[1][j]!r} when decomposed alone"))
+        # ---- state between calls: same call again after the caller overwrote the first result
+        st["repeat_call_identical"] += 1
+        if r2[0] != "OK":
+            bad.append((b, f"{tag}: the same call repeated raised {r2[1:]}"))
+        else:
+            for i, sure in enumerate(written):
+                if not same_bits(rows[i][:sure], r2[1][i][:sure]):
+                    bad.append((b, f"{tag} entry {i}: the same call repeated (after the caller overwrote the first result) returns different numbers"))
+            st["outputs_not_aliased"] += 1
+            if any(np.shares_memory(r[2][k], r2[2][k]) for k in KEYS + ["hexagonal_axis"] if r[2][k].size):
+                bad.append((b, f"{tag}: two calls return arrays that share memory"))
+    return bad
+
+
+def oracle_batch(T, D, b):
+    """Direct reading of C12 on a series call: every entry of the series must satisfy the property (reported
+    numbers of entry i are those of matrix i), in the series of rotated and in the series of unrotated tensors."""
+    with quiet():
+        return _oracle_batch(T, D, b)
+
+
+def _oracle_batch(T, D, b):
+    es, n = b["entries"], len(b["entries"])
+    r1, _ = run_series(D, build_input(b), n, record=False)
+    singles = [run_impl(D, c["Min"])[0] for c in es] if b["form"] not in ("int", "float32") else \
+        [run_impl(D, np.asarray(c["Min"]).astype(np.int64 if b["form"] == "int" else np.float32))[0] for c in es]
+    first_err = next((s_ for s_ in singles if s_[0] == "ERR"), None)
+    if r1[0] == "ERR":
+        if first_err is None:
+            return [f"elasticity_components raised on the series ({r1[1:]}) although every entry can be decomposed alone"]
+        return [] if b["degenerate"] else [f"elasticity_components raised: {r1[1:]}"]
+    if first_err is not None:
+        return [f"an entry raises {first_err[1]} when decomposed alone but the series call returned"]
+    b0 = dict(b, entries=[dict(c, Min=c["M0"]) for c in es], form=b["form"] if b["form"] in ("array", "list", "tuple", "fortran", "strided", "readonly") else "array")
+    r0, _ = run_series(D, build_input(b0), n, record=False)
+    if r0[0] == "ERR":
+        return [f"elasticity_components raised on the series of unrotated tensors: {r0[1:]}"]
+    f = []
+    loose = b["form"] == "float32"
+    for i, c in enumerate(es):
+        if c["kind"].startswith("degenerate"):
+            continue
+        if not loose:
+            for msg in entry_checks(T, c, r0[1][i], r1[1][i]):
+                f.append(f"entry {i} of {n} ({c['kind']}): {msg}")
+        a, s1 = r1[1][i], singles[i][1]
+        # the numbers reported for a tensor are a function of that tensor (axis up to sign)
+        dev = np.abs(a[:8] - s1[:8]).max()
+        ax = min(np.abs(a[8:] - s1[8:]).max(), np.abs(a[8:] + s1[8:]).max())
+        if c["kind"] not in SPECIAL and (dev > 1e-6 * max(1.0, abs(s1[0])) or ax > 1e-6):
+            j = int(np.abs(a[:8] - s1[:8]).argmax())
+            f.append(f"entry {i} of {n} ({c['kind']}): {KEYS[j]} = {a[j]:.9g} in the series but {s1[j]:.9g} when the tensor is "
+                     f"decomposed alone" if dev > 1e-6 * max(1.0, abs(s1[0])) else
+                     f"entry {i} of {n} ({c['kind']}): hexagonal axis in the series differs from the axis found alone")
+    return f
+
+
+def encode_batch(b):
+    def enc(c):
+        d = encode(c)
+        d["Min"] = [hx(v) for v in np.asarray(c["Min"], dtype=float).reshape(-1)]
+        return d
+    return {"batch": [enc(c) for c in b["entries"]], "family": b["family"], "form": b["form"], "degenerate": b["degenerate"]}
+
+
+def decode_batch(d):
+    u = common.unhx
+    es = []
+    for e in d["batch"]:
+        c = decode(e)
+        c["Min"] = np.array([u(v) for v in e["Min"]]).reshape(6, 6)
+        es.append(c)
+    return dict(family=d["family"], form=d["form"], degenerate=d.get("degenerate"), entries=es)
+
+
+def gen_batches(T, chk, n=None, seed_offset=2):
+    rng = np.random.default_rng(chk.seed + seed_offset)
+    n = n if n is not None else (40 if chk.tier == "quick" else 1200)
+    out, prev = [], None
+    for k in range(n):
+        b = gen_batch(T, rng, k, prev)
+        if b["family"] == "hetero" and b["form"] == "array":
+            prev = b
+        out.append(b)
+    return out
+
+
+def search_batches(chk, T, D, extra=()):
+    pool = list(extra) + gen_batches(T, chk, n=20, seed_offset=3)
+    found, seen = [], set()
+    for b in pool:
+        fails = oracle_batch(T, D, b)
+        sig = {re.sub(r"^entry \d+ of \d+ \([^)]*\): ", "", m_).split("(")[0][:50] for m_ in fails}
+        if sig - seen:
+            seen |= sig
+            found.append((b, fails))
+            if len(found) >= 3:
+                break
+    return found
+
+
 def gen_cases(T, chk):
     rng = np.random.default_rng(chk.seed)
     n = 300 if chk.tier == "quick" else 6000
@@ -198,28 +653,54 @@ def run(chk):
         "hex_axis_corotates (axis of the rotated run = +- R . axis of the unrotated run) and equality of all eight reported numbers in both frames "
         "under the property's no-tie exclusion (strict minimum among the three candidate distances of the unrotated tensor); the sum rule on the whole function. "
         "OPEN (carried by the run-time comparison): frame independence of all percentages for non-orthorhombic tensors",
+        "hand-written Model_decomp_series.elasticity_components_series (table of rows allocated up front, iteration m writes row m, an exception aborts "
+        "the call); PROVED for every Num instance: it is the map of elasticity_components1 over the series, row k depends on entry k only (any "
+        "companions, order, repetition, length), raises what the first raising entry raises; tied by the series correspondence (heterogeneous series "
+        "vs extracted series model / extracted single-matrix model / single-matrix calls). Independence of EARLIER CALLS (no state between calls), "
+        "non-aliasing of returned arrays and non-modification of the input are not expressible in the pure model: measured on every series call",
     ]
     chk.cov["rule"] = ("tensors = the two built-in single-crystal tensors, random positive-definite orthorhombic tensors, Voigt averages of random 2-11 grain textures; each in the "
                        "unrotated and in a Haar-rotated frame; implementation vs extracted model on the recorded eigh outputs at 1e-9 (+1e-7 abs on percentages); "
-                       "eigenvalue gaps of both contractions are measured and reported (gap_histogram)")
+                       "eigenvalue gaps of both contractions are measured and reported (gap_histogram). SERIES calls (batch_*_histogram): heterogeneous series of "
+                       "1-7 matrices of different materials / frames / scales (1e-3..1e6), permuted, with repeated and aliased entries, with exactly isotropic / cubic / "
+                       "hexagonal / tetragonal members, the empty series, passed as array / list / tuple / Fortran / strided / read-only / int64 / float32 / "
+                       "garbage-below-the-diagonal / broadcast view; every row vs the extracted series model and the extracted single-matrix model on the recorded eigh "
+                       "outputs (1e-9) and bit-for-bit vs the matrix decomposed alone; each call repeated after the caller overwrote the first result (bit-identical, no "
+                       "shared memory, input unchanged); degenerate stream (zero / NaN / inf / negative member first, middle, last): the call raises iff an entry raises "
+                       "alone, with the first such entry's exception")
     bad = []
+    badb = []
     cases = []
     if br.drivers.get(G.GROUP, 1) is None:
         cases = gen_cases(T, chk)
         bad = compare(chk, T, D, cases)
-        chk.cov["traces_validated_against_impl"] = len(cases)
-    chk.cov["disagreements"] = len(bad)
-    if ok and not bad:
+        batches = gen_batches(T, chk)
+        badb = compare_batches(chk, T, D, batches)
+        chk.cov["traces_validated_against_impl"] = len(cases) + len(batches)
+        chk.cov["series_calls_validated"] = len(batches)
+    chk.cov["disagreements"] = len(bad) + len(badb)
+    if ok and not bad and not badb:
         return
     found = search(chk, T, D, extra=[c for c, _ in bad[:10]])
-    if found:
-        for c, fails in found:
-            chk.replay({"kind": "property-violation", "call": "pydrex.diagnostics.elasticity_components", "input": encode(c),
-                        "observed": fails, "required": "C12 (see properties.jsonl)",
-                        "broken": chk.cov.get("broken_obligations", []), "disagreements": [m for _, m in bad[:3]]})
-    else:
+    seenb, extrab = set(), []
+    for b, _ in badb:
+        if id(b) not in seenb and len(extrab) < 10:
+            seenb.add(id(b))
+            extrab.append(b)
+    foundb = search_batches(chk, T, D, extra=extrab) if (badb or not found) else []
+    for c, fails in found:
+        chk.replay({"kind": "property-violation", "call": "pydrex.diagnostics.elasticity_components", "input": encode(c),
+                    "observed": fails, "required": "C12 (see properties.jsonl)",
+                    "broken": chk.cov.get("broken_obligations", []), "disagreements": [m for _, m in bad[:3]]})
+    for b, fails in foundb:
+        chk.replay({"kind": "property-violation", "call": "pydrex.diagnostics.elasticity_components (series of "
+                    f"{len(b['entries'])} matrices passed as {b['form']})", "input": encode_batch(b),
+                    "observed": fails, "required": "C12 (see properties.jsonl): holds for every matrix of the series",
+                    "broken": chk.cov.get("broken_obligations", []), "disagreements": [m for _, m in badb[:3]]})
+    if not found and not foundb:
         chk.replay({"kind": "unproved", "broken": chk.cov.get("broken_obligations", []),
-                    "disagreements": [{"input": encode(c), "detail": m} for c, m in bad[:3]],
+                    "disagreements": [{"input": encode(c), "detail": m} for c, m in bad[:3]] +
+                                     [{"input": encode_batch(b), "detail": m} for b, m in badb[:3]],
                     "note": "proof obligation or correspondence no longer checks; no failing input found by the search"},
                    no_input=True)
 
@@ -231,7 +712,10 @@ def replay(d):
     if d.get("kind") != "property-violation":
         print("replay file names a broken obligation; re-run the check itself")
         return 1
-    fails = oracle(T, D, decode(d["input"]))
+    if "batch" in d["input"]:
+        fails = oracle_batch(T, D, decode_batch(d["input"]))
+    else:
+        fails = oracle(T, D, decode(d["input"]))
     for f in fails:
         print("still fails:", f)
     return 1 if fails else 0
